@@ -112,7 +112,10 @@ class SchedulerStuck(RuntimeError):
 
 class Run(object):
     """One controlled execution of n thread bodies."""
-    TIMEOUT = 20.0
+    # generous: a wait that times out raises inside the traced library code, where a handler of the
+    # library may swallow it and change the outcome (seen once, under memory pressure, as a spurious
+    # non-sequential answer); a run in which any wait timed out is never judged (see run_plan)
+    TIMEOUT = 600.0
 
     def __init__(self, fns, tracked, pred=None):
         self.fns = fns
@@ -169,6 +172,7 @@ class Run(object):
             return
         self.back.release()
         if not self.go[i].acquire(timeout=self.TIMEOUT):
+            self.stuck = True
             raise SchedulerStuck('thread %d never rescheduled' % i)
 
     def _body(self, i):
@@ -191,6 +195,7 @@ class Run(object):
     def step(self, i):
         self.go[i].release()
         if not self.back.acquire(timeout=self.TIMEOUT):
+            self.stuck = True
             raise SchedulerStuck('thread %d did not come back' % i)
 
     def drain(self):
@@ -233,6 +238,9 @@ class Run(object):
                 status = 'unfinished'
         finally:
             self.drain()
+        if getattr(self, 'stuck', False):
+            # the outcome of such a run says nothing about the library
+            raise SchedulerStuck('a scheduler wait timed out during this plan: the run is not judged')
         return status
 
 
@@ -1122,6 +1130,8 @@ def stress_F(ctx, rep, seconds):
             for t in ths:
                 t.join(30)
             for k, r in zip(kinds, res):
+                if r is None:
+                    continue      # the thread never got to run (barrier timed out): nothing to judge
                 if r != f_solo(k):
                     wrong += 1
                     rep.violation('C17:forger-transform-race',
